@@ -638,6 +638,15 @@ class Subject:
                 f.write(op['content'])
             if mt is not None:
                 os.utime(p, ns=(mt, mt))
+        elif kind == 'write_zip':
+            import zipfile
+            os.makedirs(parent, exist_ok=True)
+            with zipfile.ZipFile(p, 'w') as z:
+                for name, member in sorted(op['members'].items()):
+                    zi = zipfile.ZipInfo(name, date_time=(2017, 7, 14, 2, 40, 0))
+                    z.writestr(zi, member['text'].encode(member.get('encoding', 'utf-8')))
+            if mt is not None:
+                os.utime(p, ns=(mt, mt))
         elif kind == 'write_via_rename':
             os.makedirs(parent, exist_ok=True)
             tmp = p + '.tmp~'
